@@ -4,6 +4,8 @@ go 1.25
 
 require (
 	git.torproject.org/pluggable-transports/snowflake.git/v2 v2.0.0
+	github.com/pion/sdp/v3 v3.0.5
+	github.com/pion/webrtc/v3 v3.1.41
 	pgregory.net/rapid v1.3.0
 	verif.local/vstat v0.0.0
 )
@@ -20,13 +22,11 @@ require (
 	github.com/pion/rtcp v1.2.9 // indirect
 	github.com/pion/rtp v1.7.13 // indirect
 	github.com/pion/sctp v1.8.2 // indirect
-	github.com/pion/sdp/v3 v3.0.5 // indirect
 	github.com/pion/srtp/v2 v2.0.9 // indirect
 	github.com/pion/stun v0.3.5 // indirect
 	github.com/pion/transport v0.13.0 // indirect
 	github.com/pion/turn/v2 v2.0.8 // indirect
 	github.com/pion/udp v0.1.1 // indirect
-	github.com/pion/webrtc/v3 v3.1.41 // indirect
 	golang.org/x/crypto v0.0.0-20220516162934-403b01795ae8 // indirect
 	golang.org/x/net v0.0.0-20220425223048-2871e0cb64e4 // indirect
 	golang.org/x/sys v0.0.0-20211216021012-1d35b9e2eb4e // indirect
